@@ -256,6 +256,15 @@ func handleResumption(
 		return 0, &alert.Alert{Level: alert.Fatal, Description: alert.HandshakeFailure}, dtlserrors.ErrVerifyDataMismatch
 	}
 
+	// The application's verdict is asked for on every connection, resumed ones
+	// included: it may have changed its mind about this peer since the session
+	// was stored.
+	if cfg.VerifyConnection != nil {
+		if err := cfg.VerifyConnection(state); err != nil {
+			return 0, &alert.Alert{Level: alert.Fatal, Description: alert.BadCertificate}, err
+		}
+	}
+
 	clientRandom := state.LocalRandom.MarshalFixed()
 	cfg.WriteKeyLog(keyLogLabel, clientRandom[:], state.MasterSecret)
 
